@@ -42,9 +42,52 @@ def run(ctx, pid):
             n += len(obs)
     finally:
         P.Prims.register_defaults = orig
+    from ..contracts import partialreduce as PR
+
+    orig = P.Prims.register_defaults
+
+    def reg3(self, orig=orig):
+        orig(self)
+        PR.register_models(self)
+
+    P.Prims.register_defaults = reg3
+    npr = 0
+    try:
+        for c, callees in PR.all_partial_reduce():
+            c.prefix = pid + c.prefix[3:]
+            ex, obs = add_to_ctx(ctx, c, callees)
+            npr += len(obs)
+    finally:
+        P.Prims.register_defaults = orig
+    n += npr
+    ctx.add_obligations([_product_lockstep(pid)])
     from ..pyvc import conformance
 
     conformance.add_to_ctx(ctx, ["partition_all"])
     ctx.assume("math.ceil(math.log(n, k)) is the least d with k**d >= n, and k**e >= n for every e >= d (mathematical reals; float rounding of math.log trusted for realistic block counts)")
     return (f"_tree_reduce (1 and 2 reduced axes; split_every int / None / dict): {n} obligations: enough levels for one block per reduced axis (loop invariant blocks <= fan_in**(levels left), "
-            "lemma CEIL_DIV_LE), levels chained by name, aggregate and block_index only at the last level; get_parts: the blocks of a reduced axis are partitioned by toolz.partition_all with that axis' fan-in over their natural order, one unit chunk announced per part; the graph-writing loop of partial_reduce enters as an assumed contract = the bounded tree-builder contract.")
+            "lemma CEIL_DIV_LE), levels chained by name, aggregate and block_index only at the last level; get_parts: the blocks of a reduced axis are partitioned by toolz.partition_all with that axis' fan-in over their natural order, one unit chunk announced per part; partial_reduce (one reduced axis / a kept axis next to it / two reduced axes, with and without block_index): every key written is (name, one part number per axis) within the announced grid, its task reads the layer dep_name - the same block on a kept axis, exactly the run the key names on a reduced axis -, block_index replaces the last coordinate only. In _tree_reduce's own contract the level still enters through its summary (ceil(n / fan_in) blocks per reduced axis), which the get_parts / partial_reduce contracts now back.")
+
+
+def _product_lockstep(pid):
+    """conformance of the assumed contract of itertools.product used by the partial_reduce contract: the order of the index vectors
+    depends only on the factor lengths (enumerated for every length vector up to 4 x 4 x 3, members arbitrary objects)"""
+    import itertools
+    import time
+
+    from ..core import DISCHARGED, VIOLATED, Obligation
+
+    t0 = time.time()
+    bad = None
+    n = 0
+    for lens in itertools.product(range(0, 5), range(0, 5), range(1, 4)):
+        for nf in (1, 2, 3):
+            ls = lens[:nf]
+            facs = [[("m", ax, i * 7 % 5, i) for i in range(l)] for ax, l in enumerate(ls)]
+            a = [tuple(m[3] for m in t) for t in itertools.product(*facs)]
+            b = list(itertools.product(*[range(l) for l in ls]))
+            n += 1
+            if a != b:
+                bad = dict(lengths=list(ls))
+    return Obligation(name=f"{pid}.conformance.itertools_product_lockstep", function="itertools.product", status=DISCHARGED if bad is None else VIOLATED, backend="enumeration", seconds=time.time() - t0, kind="table",
+                      formula="zip(product(*ranges), product(*factors)) pairs index vector (d_0..d_m) with (factors_0[d_0]..factors_m[d_m]) for every factor length vector up to 4 x 4 x 3", detail=f"{n} length vectors" if bad is None else f"differs for {bad}", model=bad)
